@@ -512,6 +512,12 @@ func (w *World) resolveMetaCas(op Op) uint64 {
 		// key get a smaller CAS than the one stored
 		v = uint64(time.Now().Add(time.Hour).UnixNano()) | 0x3039
 		v += 2 * uint64(atomic.AddInt64(&metaSerial, 1)%1000)
+	case "same":
+		// the CAS the document already has (a replayed import): no uniqueness adjustment
+		if cur := m.Get(op.C, op.Key); cur.Present {
+			return cur.Cas
+		}
+		v = m.MaxCas + 0x10000 + 0x3039
 	case "below":
 		v = 1000
 	case "between":
